@@ -191,7 +191,7 @@ func (c *connection) applicationStart(name gen.Atom, mode gen.ApplicationMode, o
 		Options: extra,
 		Ref:     ref,
 	}
-	ch := make(chan MessageResult)
+	ch := make(chan MessageResult, 1)
 	c.requestsMutex.Lock()
 	c.requests[ref] = ch
 	c.requestsMutex.Unlock()
@@ -230,7 +230,7 @@ func (c *connection) updateCache() error {
 		Ref: ref,
 		// put them here
 	}
-	ch := make(chan MessageResult)
+	ch := make(chan MessageResult, 1)
 	c.requestsMutex.Lock()
 	c.requests[ref] = ch
 	c.requestsMutex.Unlock()
@@ -955,7 +955,7 @@ func (c *connection) LinkPID(pid gen.PID, target gen.PID) error {
 		Ref:    ref,
 	}
 
-	ch := make(chan MessageResult)
+	ch := make(chan MessageResult, 1)
 	c.requestsMutex.Lock()
 	c.requests[ref] = ch
 	c.requestsMutex.Unlock()
@@ -981,7 +981,7 @@ func (c *connection) UnlinkPID(pid gen.PID, target gen.PID) error {
 		Target: target,
 		Ref:    ref,
 	}
-	ch := make(chan MessageResult)
+	ch := make(chan MessageResult, 1)
 	c.requestsMutex.Lock()
 	c.requests[ref] = ch
 	c.requestsMutex.Unlock()
@@ -1003,7 +1003,7 @@ func (c *connection) LinkProcessID(pid gen.PID, target gen.ProcessID) error {
 		Target: target,
 		Ref:    ref,
 	}
-	ch := make(chan MessageResult)
+	ch := make(chan MessageResult, 1)
 	c.requestsMutex.Lock()
 	c.requests[ref] = ch
 	c.requestsMutex.Unlock()
@@ -1026,7 +1026,7 @@ func (c *connection) UnlinkProcessID(pid gen.PID, target gen.ProcessID) error {
 		Target: target,
 		Ref:    ref,
 	}
-	ch := make(chan MessageResult)
+	ch := make(chan MessageResult, 1)
 	c.requestsMutex.Lock()
 	c.requests[ref] = ch
 	c.requestsMutex.Unlock()
@@ -1053,7 +1053,7 @@ func (c *connection) LinkAlias(pid gen.PID, target gen.Alias) error {
 		Target: target,
 		Ref:    ref,
 	}
-	ch := make(chan MessageResult)
+	ch := make(chan MessageResult, 1)
 	c.requestsMutex.Lock()
 	c.requests[ref] = ch
 	c.requestsMutex.Unlock()
@@ -1080,7 +1080,7 @@ func (c *connection) UnlinkAlias(pid gen.PID, target gen.Alias) error {
 		Target: target,
 		Ref:    ref,
 	}
-	ch := make(chan MessageResult)
+	ch := make(chan MessageResult, 1)
 	c.requestsMutex.Lock()
 	c.requests[ref] = ch
 	c.requestsMutex.Unlock()
@@ -1102,7 +1102,7 @@ func (c *connection) LinkEvent(pid gen.PID, target gen.Event) ([]gen.MessageEven
 		Target: target,
 		Ref:    ref,
 	}
-	ch := make(chan MessageResult)
+	ch := make(chan MessageResult, 1)
 	c.requestsMutex.Lock()
 	c.requests[ref] = ch
 	c.requestsMutex.Unlock()
@@ -1131,7 +1131,7 @@ func (c *connection) UnlinkEvent(pid gen.PID, target gen.Event) error {
 		Target: target,
 		Ref:    ref,
 	}
-	ch := make(chan MessageResult)
+	ch := make(chan MessageResult, 1)
 	c.requestsMutex.Lock()
 	c.requests[ref] = ch
 	c.requestsMutex.Unlock()
@@ -1156,7 +1156,7 @@ func (c *connection) MonitorPID(pid gen.PID, target gen.PID) error {
 		Target: target,
 		Ref:    ref,
 	}
-	ch := make(chan MessageResult)
+	ch := make(chan MessageResult, 1)
 	c.requestsMutex.Lock()
 	c.requests[ref] = ch
 	c.requestsMutex.Unlock()
@@ -1181,7 +1181,7 @@ func (c *connection) DemonitorPID(pid gen.PID, target gen.PID) error {
 		Target: target,
 		Ref:    ref,
 	}
-	ch := make(chan MessageResult)
+	ch := make(chan MessageResult, 1)
 	c.requestsMutex.Lock()
 	c.requests[ref] = ch
 	c.requestsMutex.Unlock()
@@ -1203,7 +1203,7 @@ func (c *connection) MonitorProcessID(pid gen.PID, target gen.ProcessID) error {
 		Target: target,
 		Ref:    ref,
 	}
-	ch := make(chan MessageResult)
+	ch := make(chan MessageResult, 1)
 	c.requestsMutex.Lock()
 	c.requests[ref] = ch
 	c.requestsMutex.Unlock()
@@ -1225,7 +1225,7 @@ func (c *connection) DemonitorProcessID(pid gen.PID, target gen.ProcessID) error
 		Target: target,
 		Ref:    ref,
 	}
-	ch := make(chan MessageResult)
+	ch := make(chan MessageResult, 1)
 	c.requestsMutex.Lock()
 	c.requests[ref] = ch
 	c.requestsMutex.Unlock()
@@ -1251,7 +1251,7 @@ func (c *connection) MonitorAlias(pid gen.PID, target gen.Alias) error {
 		Target: target,
 		Ref:    ref,
 	}
-	ch := make(chan MessageResult)
+	ch := make(chan MessageResult, 1)
 	c.requestsMutex.Lock()
 	c.requests[ref] = ch
 	c.requestsMutex.Unlock()
@@ -1277,7 +1277,7 @@ func (c *connection) DemonitorAlias(pid gen.PID, target gen.Alias) error {
 		Target: target,
 		Ref:    ref,
 	}
-	ch := make(chan MessageResult)
+	ch := make(chan MessageResult, 1)
 	c.requestsMutex.Lock()
 	c.requests[ref] = ch
 	c.requestsMutex.Unlock()
@@ -1299,7 +1299,7 @@ func (c *connection) MonitorEvent(pid gen.PID, target gen.Event) ([]gen.MessageE
 		Target: target,
 		Ref:    ref,
 	}
-	ch := make(chan MessageResult)
+	ch := make(chan MessageResult, 1)
 	c.requestsMutex.Lock()
 	c.requests[ref] = ch
 	c.requestsMutex.Unlock()
@@ -1328,7 +1328,7 @@ func (c *connection) DemonitorEvent(pid gen.PID, target gen.Event) error {
 		Target: target,
 		Ref:    ref,
 	}
-	ch := make(chan MessageResult)
+	ch := make(chan MessageResult, 1)
 	c.requestsMutex.Lock()
 	c.requests[ref] = ch
 	c.requestsMutex.Unlock()
@@ -1358,7 +1358,7 @@ func (c *connection) RemoteSpawn(name gen.Atom, options gen.ProcessOptionsExtra)
 		Ref:     ref,
 	}
 
-	ch := make(chan MessageResult)
+	ch := make(chan MessageResult, 1)
 	c.requestsMutex.Lock()
 	c.requests[ref] = ch
 	c.requestsMutex.Unlock()
